@@ -19,7 +19,7 @@ META = {
     "require": {"quick": ["class:rowscan_shape", "class:mapping=many_to_one", "class:common=absent",
                           "class:alphabet=neg", "class:alphabet=b63", "class:counts=given", "class:back=mapping",
                           "class:n=0", "class:ndim=2", "class:layout=F", "class:layout=strided", "class:layout=list",
-                          "class:options_reused", "class:alphabet=sbound"],
+                          "class:options_reused", "class:alphabet=sbound", "class:n>2^20", "class:columns>255"],
                 "thorough": ["class:rowscan_shape", "class:mapping=many_to_one", "class:common=absent",
                              "class:alphabet=neg", "class:alphabet=b63", "class:counts=given", "class:back=mapping",
                              "class:n=0", "class:ndim=2", "class:n>=20000"]},
@@ -36,10 +36,14 @@ BACK_CLASSES = ["default", "default", "int64", "narrow", "mapping"]
 def shards(tier):
     if tier == "quick":
         return [{"label": "mix%d" % i, "kind": "mix", "n": 5000, "crash_is_violation": True} for i in range(12)] + \
-               [{"label": "rowscan", "kind": "rowscan", "n": 1000, "crash_is_violation": True}]
+               [{"label": "rowscan", "kind": "rowscan", "n": 1000, "crash_is_violation": True},
+                {"label": "huge", "kind": "huge", "n": 3, "crash_is_violation": True, "mem_gib": 12},
+                {"label": "wide", "kind": "wide", "n": 12, "crash_is_violation": True, "mem_gib": 12}]
     out = [{"label": "mix%d" % i, "kind": "mix", "n": 70000, "crash_is_violation": True} for i in range(13)]
     out += [{"label": "rowscan%d" % i, "kind": "rowscan", "n": 8000, "crash_is_violation": True} for i in range(3)]
     out += [{"label": "big", "kind": "big", "n": 60, "crash_is_violation": True, "mem_gib": 12}]
+    out += [{"label": "huge%d" % i, "kind": "huge", "n": 8, "crash_is_violation": True, "mem_gib": 12} for i in range(2)]
+    out += [{"label": "wide", "kind": "wide", "n": 60, "crash_is_violation": True, "mem_gib": 12}]
     return out
 
 
@@ -58,14 +62,40 @@ def make_case(rng, kind):
         acls = gen.pick(rng, ["small", "gapped", "neg", "b16"])
         vals = gen.alphabet(rng, acls, kmin=2, kmax=9)
         dist = gen.pick(rng, ["uniform", "skew", "sparse", "verysparse"])
+    elif kind == "huge":
+        # more than 2^20 rows (block-wise processing), both strategies
+        n = 2 ** 20 + int(gen.pick(rng, [1, 5, 4097, 300000]))
+        acls = gen.pick(rng, ["small", "gapped", "neg"])
+        vals = gen.alphabet(rng, acls, kmin=5, kmax=9)
+        while len(vals) < 5:
+            vals = vals + [max(vals) + 1 + len(vals)]
+        dist = gen.pick(rng, ["verysparse", "sparse", "skew"])
+    elif kind == "wide":
+        # many distinct values (> 256, > 65536) or many columns (> 256)
+        if rng.random() < 0.5:
+            k = int(gen.pick(rng, [300, 70000]))
+            n = k + int(rng.integers(0, 50))
+            vals = [int(v) for v in rng.permutation(k)]
+            acls, dist = "many_values", "ties"
+        else:
+            n = int(gen.pick(rng, [1, 3, 8]))
+            acls = "small"
+            vals = gen.alphabet(rng, acls)
+            dist = gen.pick(rng, gen.DIST_CLASSES)
     else:
         n = gen.pick(rng, N_QUICK + ([5000] if rng.random() < 0.03 else []))
         acls = gen.pick(rng, gen.ALPHABET_CLASSES)
         vals = gen.alphabet(rng, acls)
         dist = gen.pick(rng, gen.DIST_CLASSES)
     ndim = 1 if rng.random() < 0.55 else 2
+    if kind == "huge":
+        ndim = 1 if rng.random() < 0.7 else 2
+    if kind == "wide" and acls == "small":
+        ndim = 2
     if ndim == 2:
         cols = gen.pick(rng, [1, 2, 3, 5] if n <= 1000 else [2])
+        if kind == "wide" and acls == "small":
+            cols = int(gen.pick(rng, [256, 257, 300]))
         shape = (n, cols)
     else:
         shape = (n,)
@@ -193,7 +223,11 @@ def judge(ctx, case):
     present = sorted(set(int(x) for x in a.ravel().tolist())) if a.size else []
     # input classes (independent of the code under test)
     ctx.count("class:ndim=%d" % a.ndim)
-    ctx.count("class:n=0" if n == 0 else ("class:n>=20000" if n >= 20000 else "class:n>0"))
+    ctx.count("class:n=0" if n == 0 else ("class:n>2^20" if n > 2 ** 20 else ("class:n>=20000" if n >= 20000 else "class:n>0")))
+    if a.ndim == 2 and a.shape[1] > 255:
+        ctx.count("class:columns>255")
+    if len(present) > 65536:
+        ctx.count("class:distinct_values>65536")
     ctx.count("class:alphabet=" + case.get("alphabet", "?"))
     ctx.count("class:common=" + case.get("common_class", "?"))
     ctx.count("class:mapping=" + case.get("mapping_class", "?"))
